@@ -1833,6 +1833,9 @@ EGLPNUM_TYPENAME_QSLIB_INTERFACE int EGLPNUM_TYPENAME_QSload_basis (
 	CHECKRVALG (rval, CLEANUP);
 
 	p->factorok = 0;
+	/* the cached solution belongs to the basis that was just replaced:
+	 * QSdelete_rows would keep it alive on the strength of the new one */
+	free_cache (p);
 
 CLEANUP:
 
@@ -1867,6 +1870,8 @@ EGLPNUM_TYPENAME_QSLIB_INTERFACE int EGLPNUM_TYPENAME_QSread_and_load_basis (
 		EGLPNUM_TYPENAME_ILLlp_basis_free (p->basis);
 	}
 	*(p->basis) = nB;
+	p->factorok = 0;
+	free_cache (p);
 
 CLEANUP:
 
@@ -1933,6 +1938,7 @@ EGLPNUM_TYPENAME_QSLIB_INTERFACE int EGLPNUM_TYPENAME_QSload_basis_array (
 	}
 
 	p->factorok = 0;
+	free_cache (p);
 
 CLEANUP:
 
@@ -1963,6 +1969,7 @@ EGLPNUM_TYPENAME_QSLIB_INTERFACE int EGLPNUM_TYPENAME_QSload_basis_and_row_norms
 	}
 
 	p->factorok = 0;
+	free_cache (p);
 
 CLEANUP:
 
